@@ -76,7 +76,9 @@ def gen_dir(ch, depth, counter, top=False):
             # an entry naming a directory that does not exist: reported, the others are still copied
             idx["copy_subdir"].insert(ch.int(len(idx["copy_subdir"]) + 1), "nowhere")
         entries = sorted(list(d["files"]) + list(d["dirs"]))
-        if entries and ch.bool(1, 2):
+        if ch.bool(1, 10):
+            idx["ordered_empty"] = True
+        elif entries and ch.bool(1, 2):
             k = ch.count(1, len(entries))
             idx["ordered"] = ch.shuffle(entries)[:k]
             if ch.bool(1, 6):
@@ -84,6 +86,8 @@ def gen_dir(ch, depth, counter, top=False):
             if ch.bool(1, 6):
                 # the same entry named twice: it is still one page, at its first position
                 idx["ordered"].insert(ch.int(len(idx["ordered"]) + 1), ch.choice(idx["ordered"]))
+            # a directory may be named with a trailing slash
+            idx["slash"] = [x for x in idx["ordered"] if x in d["dirs"] and ch.bool(1, 3)]
             if ch.bool(1, 12):
                 idx["missing"] = "ghost.md"
                 idx["ordered"].insert(ch.int(len(idx["ordered"]) + 1), "ghost.md")
@@ -177,7 +181,10 @@ def render_tree(d, ch, loc, all_pages, depth, files):
     base = os.path.join("pages", loc)
     if d["index"] is not None:
         idx = d["index"]
-        extra = [f"ordered_subpage: {x}" for x in idx["ordered"]] + [f"copy_subdir: {x}" for x in idx["copy_subdir"]]
+        extra = [f"ordered_subpage: {x}" + ("/" if x in idx.get("slash", ()) else "") for x in idx["ordered"]] + \
+                [f"copy_subdir: {x}" for x in idx["copy_subdir"]]
+        if idx.get("ordered_empty"):
+            extra.insert(0, "ordered_subpage:")        # the option without a value: no explicit order
         if idx.get("copy_subdir_off"):
             extra.append("copy_subdir:")
         if idx["title"] is None:
